@@ -171,33 +171,44 @@ func poolFields(p *value) (bag *value, newFn *value) {
 	return &s[1], &s[len(s)-1]
 }
 
+// poolEntry is one pooled object together with the clock of the Put that stored it: a Get synchronises with
+// that Put only (an object that was put twice is two entries; taking the older one is not ordered after the
+// user of the newer one).
+type poolEntry struct {
+	x  value
+	vc vclock
+}
+
 func (i *Interp) poolGet(fr *frame, p *value) value {
 	if p == nil {
 		i.rtPanic("invalid memory address or nil pointer dereference")
 	}
 	bagc, newc := poolFields(p)
-	bag, _ := (*bagc).([]value)
 	if i.threads != nil {
 		i.threads.syncPoint(i, "pool.Get")
 	}
+	// (read the bag only now: another thread may have run at the scheduling point above)
+	bag, _ := (*bagc).([]value)
 	if len(bag) > 0 {
-		// policy: LIFO unless the harness asked for every choice
+		// policy: LIFO unless the harness asked for every choice; with threads every entry may be the one handed out
 		k := len(bag) - 1
 		if i.poolChoice && len(bag) > 1 {
 			v := i.freshVarNamed(fmt.Sprintf("pool%d", i.poolSeq), fmt.Sprintf("i_pool%d", i.poolSeq), 64)
 			i.poolSeq++
 			i.assume(i.ts.Cmp(OpBVUlt, v, i.ts.Const(uint64(len(bag)), 64)))
 			k = int(i.concretize(v))
+		} else if i.threads != nil && len(i.threads.threads) > 1 && len(bag) > 1 {
+			k = len(bag) - 1 - i.threads.choose(i, len(bag))
 		}
-		x := bag[k]
+		e := bag[k].(poolEntry)
 		nb := make([]value, 0, len(bag)-1)
 		nb = append(nb, bag[:k]...)
 		nb = append(nb, bag[k+1:]...)
 		i.rawWrite(bagc, nb)
 		if i.threads != nil {
-			i.threads.acquire(i, poolKey{p, x})
+			i.threads.cur.vc.join(&e.vc)
 		}
-		return x
+		return e.x
 	}
 	nf := *newc
 	if isNilFunc(nf) {
@@ -209,11 +220,6 @@ func (i *Interp) poolGet(fr *frame, p *value) value {
 	return i.call(fr, token.NoPos, nf, nil)
 }
 
-type poolKey struct {
-	p *value
-	x value
-}
-
 func (i *Interp) poolPut(p *value, x value) {
 	if f, ok := x.(iface); ok && f.t == nil {
 		return
@@ -222,10 +228,12 @@ func (i *Interp) poolPut(p *value, x value) {
 	bag, _ := (*bagc).([]value)
 	nb := make([]value, 0, len(bag)+1)
 	nb = append(nb, bag...)
-	nb = append(nb, x)
-	if i.threads != nil {
-		i.threads.release(i, poolKey{p, x})
+	e := poolEntry{x: x}
+	if t := i.threads; t != nil {
+		e.vc = t.cur.vc
+		t.cur.vc[t.cur.id]++
 	}
+	nb = append(nb, e)
 	i.rawWrite(bagc, nb)
 	if i.threads != nil {
 		i.threads.syncPoint(i, "pool.Put")
